@@ -332,6 +332,20 @@ func main() {
 						g2, _ := kv.Get([]byte{0xa8, 0xa7, byte(bi)})
 						t.Line("tstart", true, "tstart %d %s => %d %s %s", c.id, tn, msdrive.Count(kv), gen.Hex(g1), gen.Hex(g2))
 					}
+					// an abandoned block: transient writes that are never committed, then the SAME multistore
+					// instance is re-loaded at its last committed version (what a node does to drop in-flight
+					// work).  The next block must start with empty transient stores.  No PRNG draw.
+					if len(c.transient) > 0 && (h+bi+c.id)%3 == 0 {
+						for _, tn := range c.transient {
+							_ = ms.KV(tn).Set([]byte{0xab, byte(bi)}, []byte{0x05})
+						}
+						lerr := ms.Store.LoadLatestVersion()
+						for _, tn := range c.transient {
+							kv := ms.KV(tn)
+							g, _ := kv.Get([]byte{0xab, byte(bi)})
+							t.Line("reload", true, "reload %d %s => %v %d %s %s", c.id, tn, lerr == nil, msdrive.Count(kv), gen.Hex(g), msdrive.CID(ms.Store.LastCommitID()))
+						}
+					}
 				}
 			}()
 		}
